@@ -17,11 +17,12 @@ pub mod c16;
 pub mod c17;
 pub mod c18;
 pub mod c19;
+pub mod c20;
 
 use crate::engine::{Property, Tier};
 
 pub const ALL: &[&str] = &[
-    "C01", "C02", "C03", "C04", "C05", "C06", "C08", "C09", "C10", "C11", "C12", "C13", "C14", "C15", "C16", "C17", "C18", "C19",
+    "C01", "C02", "C03", "C04", "C05", "C06", "C08", "C09", "C10", "C11", "C12", "C13", "C14", "C15", "C16", "C17", "C18", "C19", "C20",
 ];
 
 pub fn property(id: &str, tier: Tier) -> Option<Property> {
@@ -44,6 +45,7 @@ pub fn property(id: &str, tier: Tier) -> Option<Property> {
         "C17" => c17::property(tier),
         "C18" => c18::property(tier),
         "C19" => c19::property(tier),
+        "C20" => c20::property(tier),
         _ => return None,
     })
 }
